@@ -69,7 +69,10 @@ def run(ctx):
     # the mere existence of storage.  This is rule R06.3 evaluated for this property.
     from . import c06
     r2 = c06.r06_3(ctx.prog("S"), load_tables("c06"), rid="R13.2")
-    return [r, r2, r13_3(ctx.prog("S"), tab)]
+    # R13.4: the -fwide-types build carries object-set identifier cells as INTEGER_t literals, the native build as long
+    # constants; the literal must denote the same number (rule R18.2 evaluated for this property)
+    from . import c18
+    return [r, r2, r13_3(ctx.prog("S"), tab), c18.r18_2(prog, rid="R13.4")]
 
 
 def _is_raw(n):
